@@ -186,6 +186,12 @@ def as_sdt(d):
 
 
 _MISSING = object()
+LOCAL = {'off_us': 0}        # offset of the PROCESS-LOCAL zone (environment); harnesses put a symbolic value here
+
+
+def set_local(off_us):
+    LOCAL['off_us'] = off_us
+
 
 
 class SDT(REAL_DT):
@@ -209,8 +215,8 @@ class SDT(REAL_DT):
 
     @classmethod
     def fromtimestamp(cls, ts, tz=None):
-        if tz is None:
-            raise NotImplementedError('local time zone of the host is outside the model')
+        if tz is None:                    # naive local time of the process
+            return cls.of(to_int_us(ts * US) + LOCAL['off_us'], None)
         tz = conv_tz(tz)
         return cls.of(to_int_us(ts * US) + tz.off_us, tz)
 
@@ -246,12 +252,10 @@ class SDT(REAL_DT):
         return SDT.of(as_sdt(r).wall, tz)
 
     def astimezone(s, tz=None):
-        if tz is None:
-            raise NotImplementedError('local time zone of the host is outside the model')
-        if s.tz is None:
-            raise NotImplementedError('astimezone() of a naive value uses the local zone of the host')
-        tz = conv_tz(tz)
-        return SDT.of(s.wall - s.tz.off_us + tz.off_us, tz)
+        # Python's convention: a naive value is local time of the process; no zone argument = the local zone
+        tz = STZ(LOCAL['off_us']) if tz is None else conv_tz(tz)
+        src_off = LOCAL['off_us'] if s.tz is None else s.tz.off_us
+        return SDT.of(s.wall - src_off + tz.off_us, tz)
 
     def __add__(s, o):
         if isinstance(o, REAL_TD):
